@@ -39,19 +39,35 @@ def run(ctx):
 
     # ---- R15.1: one access record iff a value is returned ----------------------------------------
     n_hit_src = 0
+    # recording functions: local non-API functions from which an access buffer's lock is reachable (mark_key_accessed,
+    # Pool::add ...); opaque in the symbolic paths, so the first one met on a path is one access record
+    rec_fns = set()
+    for n, g in F.fns.items():
+        if n in read_names or g.kind == "Closure":
+            continue
+        hit = False
+        for nid in F.insts_of(n):
+            for m in F.inst_reach([nid], stop=lambda x: F.def_of(x) in read_names):
+                if F.def_of(m) in read_names:
+                    continue
+                if any(kind == "acquire" and what == "PB" for bb2, kind, what, c2 in F.direct_effects(m)):
+                    hit = True
+        if hit:
+            rec_fns.add(n)
     for f in reads:
-        rec_sites = [(b, t) for b, t in f.calls() if records_directly(F, f, b, read_names)]
-        if not rec_sites:
+        stop = lambda n, me=f.name: n in rec_fns or (n in read_names and n != me)
+        paths = ipaths(F, f, stop=stop, depth=2)
+        if not any(p.calls(rec_fns) for p in paths):
             continue
         n_hit_src += 1
         ctx.touch(f)
-        paths = enum_paths(f)
         ctx.analysed["paths"] += len(paths)
         bad = []
+        badk = []
         for p in paths:
-            calls = path_calls(f, p)
-            n = len([1 for b, t in calls if (b, t) in rec_sites or any(b == rb for rb, _ in rec_sites)])
-            v = ret_variant(path_return(f, p))
+            recs = p.calls(rec_fns)
+            n = len(recs)
+            v = p.ret_variant()
             if v == ("Some",):
                 if n != 1:
                     bad.append(("Some path records %d accesses" % n, p))
@@ -60,14 +76,15 @@ def run(ctx):
                     bad.append(("None path records an access", p))
             else:
                 bad.append(("return not determined", p))
+            for e in recs:
+                if not any(a == ("param", 2) for a in e.args):
+                    badk.append(str([fmt(a) for a in e.args]))
         ctx.check(not bad and paths, "R15.1", "%s|one-record-iff-hit" % f.name,
-                  "a read returning a value records exactly one access; a read returning None records none (%d paths)" % len(paths),
-                  f.where(), "; ".join("%s via %s" % x for x in bad[:3]))
+                  "a read returning a value records exactly one access; a read returning None records none (%d symbolic paths)" % len(paths),
+                  f.where(), "; ".join("%s %s" % (w, q.show()) for w, q in bad[:3]))
         # the recorded key is the looked-up key
-        for b, t in rec_sites:
-            args = [f.op_origin(a) for a in t["args"]]
-            ctx.check(any(a == ("param", 2) for a in args), "R15.1", "%s|records-looked-up-key" % f.name,
-                      "the access is recorded for the key that was looked up", f.where(b), str([fmt(a) for a in args]))
+        ctx.check(not badk, "R15.1", "%s|records-looked-up-key" % f.name,
+                  "the access is recorded for the key that was looked up", f.where(), "; ".join(badk[:2]))
     ctx.floor("R15.1", "read APIs that record accesses directly", n_hit_src, 2)
 
     # ---- R15.2 who may add to the pool ---------------------------------------------------------------
@@ -84,6 +101,9 @@ def run(ctx):
                 continue
             seen.add(d)
             cs = {g.name for n, g in F.fns.items() for bb, t in g.calls() if t.get("rpath") == d}
+            dfn = F.fn(d)
+            if dfn is not None and dfn.kind == "Closure" and dfn.rec.get("parent"):
+                cs = {dfn.rec["parent"]}        # a closure records on behalf of the function it is written in
             if d in allowed_tops or not cs:
                 tops.add(d)
                 continue
